@@ -21,7 +21,13 @@ def _lit_kind(s):
     return SAFE if any(h in s for h in MARKUP_HINTS) else CLEAN
 
 
+RAWURL = 'rawurl'      # the rule URL of the answer: raw text, but not a source C16 names
+
+
 def _plus(a, b):
+    if a == RAWURL or b == RAWURL:
+        o = b if a == RAWURL else a
+        return RAWURL if o in (CLEAN, RAWURL) else (RAW if o == RAW else MIXED)
     if a is CLEAN:
         return b
     if b is CLEAN:
@@ -34,6 +40,8 @@ def _plus(a, b):
 def _join(a, b):
     if a == b:
         return a
+    if {a, b} == {RAW, RAWURL}:
+        return RAW
     if a is CLEAN:
         return b
     if b is CLEAN:
@@ -89,6 +97,11 @@ class Html(Flow):
             return k
         if isinstance(e, ast.BinOp) and isinstance(e.op, ast.Add):
             a, b = self.kind(e.left, st), self.kind(e.right, st)
+            if RAWURL in (a, b) and (a if b == RAWURL else b) in (SAFE, MIXED):
+                # the raw URL meets markup: by-catch for C16 (TH1), a finding for C15 (TH10)
+                if self.report:
+                    self.ctx.bycatch[id(e)] = e
+                return a if b == RAWURL else b
             k = _plus(a, b)
             if k == MIXED and MIXED not in (a, b):
                 self.bad(e, 'unescaped content is concatenated with markup / escaped text: '
@@ -143,9 +156,7 @@ class Html(Flow):
                 src = e.args[0]
                 if isinstance(src, ast.Subscript) and isinstance(src.value, ast.Name) \
                         and 'url' in src.value.id:
-                    if self.report:
-                        self.ctx.bycatch[id(e)] = e
-                    return CLEAN
+                    return RAWURL
                 return RAW
             return CLEAN
         r = self.model.resolve_call(e)
@@ -289,11 +300,10 @@ def _plus_same(a, b):
     return MIXED
 
 
-def th1(model):
-    r = RuleResult('TH1', 'every string taken from the LaTeX source (slices of tex) or from the '
-                   'proofreader (message, replacement value, context text, rule id / subId) '
-                   'reaches the HTML report through protect_html exactly once on every path; '
-                   'protect_html replaces & " < > by entities, & first', floor=10)
+def _html_ctx(model):
+    c = getattr(model, '_html_ctx_cache', None)
+    if c is not None:
+        return c
     ctx = HCtx(model)
     gh = model.func('shell.genhtml.generate_html')
     # source: the text of the LaTeX file (first parameter of generate_html)
@@ -311,6 +321,16 @@ def th1(model):
         if f.name == 'protect_html':
             continue
         Html(ctx, f, report=True)
+    model._html_ctx_cache = ctx
+    return ctx
+
+
+def th1(model):
+    r = RuleResult('TH1', 'every string taken from the LaTeX source (slices of tex) or from the '
+                   'proofreader (message, replacement value, context text, rule id / subId) '
+                   'reaches the HTML report through protect_html exactly once on every path; '
+                   'protect_html replaces & " < > by entities, & first', floor=10)
+    ctx = _html_ctx(model)
     for node, how in ctx.goods.values():
         r.ok(node, how, nontrivial=True)
     for (nid, msg), (node, msg) in sorted(ctx.findings.items(), key=lambda kv: kv[1][0].lineno):
@@ -601,3 +621,17 @@ def _inside(node, anc):
             return True
         p = getattr(p, '_parent', None)
     return False
+
+
+def th10(model):
+    r = RuleResult('TH10', 'no string of the proofreader answer reaches the HTML page raw, the rule URL included: '
+                   'the page is cut into table rows at every "<br>" + line break, so a raw string that '
+                   'contains one adds rows for which add_line_numbers has no line number (IndexError), and '
+                   'a raw quote ends the attribute it stands in', floor=1)
+    ctx = _html_ctx(model)
+    r.instances += len(ctx.goods)
+    r.nontrivial += len(ctx.goods)
+    for e in ctx.bycatch.values():
+        r.fail(e, 'the value %s of the answer enters the page without protect_html' % unparse(e)[:60],
+               witness='--output html --link, answer with rule.urls[0].value = "http://x/<br>\\n<br>\\n"')
+    return r
